@@ -137,6 +137,13 @@ pub fn run(ctx: &Ctx) {
     bc.push(("key:32-bytes".into(), B::Key(J::Str(k32.clone()), Class::Accept(key_bytes)))); bc.push(("key:uppercase".into(), B::Key(J::Str(format!("0x{}", k32[2..].to_uppercase())), Class::Accept(key_bytes))));
     for (n, s) in [("31-bytes", k32[..64].to_string()), ("33-bytes", format!("{k32}00")), ("no-prefix", k32[2..].to_string()), ("empty", String::new()), ("odd", k32[..65].to_string()), ("short-number", "0x1".to_string())] { bc.push((format!("key:{n}"), B::Key(J::Str(s), Class::Reject))); }
     bc.push(("key:json-number".into(), B::Key(J::n("1"), Class::Reject)));
+    // a length that is right in BYTES and wrong in characters: a 2-, 3-, 4-byte character in place of as many digits, at every
+    // byte offset of a recipient, a storage key and 32 bytes of calldata (a length test on bytes passes; whatever then cuts
+    // the text into pairs or at a fixed offset may land inside the character)
+    for w in ["\u{e9}", "\u{20ac}", "\u{1f600}"] {
+        let a = format!("0x{}", hex(&a20)); for pos in 0..=a.len() - w.len() { bc.push((format!("to:wide-{}-bytes", w.len()), B::To(J::Str(format!("{}{w}{}", &a[..pos], &a[pos + w.len()..])), Class::Reject))); }
+        for pos in 0..=k32.len() - w.len() { bc.push((format!("key:wide-{}-bytes", w.len()), B::Key(J::Str(format!("{}{w}{}", &k32[..pos], &k32[pos + w.len()..])), Class::Reject))); bc.push((format!("data:wide-{}-bytes", w.len()), B::Data(J::Str(format!("{}{w}{}", &k32[..pos], &k32[pos + w.len()..])), Class::Reject))); }
+    }
     let kinds3 = [(Kind::Legacy, "legacy"), (Kind::Eip2930, "eip2930"), (Kind::Eip1559, "eip1559")];
     ctx.sweep("byte-fields", "calldata / recipient / storage-key spellings (prefix, digit case, odd length, wrong length, wrong JSON kind) x 3 kinds", (bc.len() * 3) as u64, |i| {
         let (kind, kname) = kinds3[(i % 3) as usize]; let (name, b) = &bc[(i / 3) as usize];
